@@ -325,6 +325,35 @@ def _e1(ctx, R):
         R.ok("E4", "CallbackListener.__init__ -> register_all_listeners")
 
 
+def _e5_bulk(ctx, R):
+    """a bulk removal announces exactly the elements it drops: the helper that dispatches the removal event is called in a loop
+    over the very set the rebuilt container excludes"""
+    from .ir_structure import bulk_removals
+    R.rule("E5b", "bulk removals announce exactly the elements they drop")
+    T = ctx.typestate
+    n = 0
+    for f, rel, S, loops, wev in bulk_removals(ctx):
+        n += 1
+        ok = False
+        for lp in loops:
+            for c in ast.walk(lp):
+                if isinstance(c, ast.Call) and isinstance(c.func, ast.Attribute) and norm(c.func.value) == "self":
+                    t = ctx.P.ir_lookup_method(f.cls.name, c.func.attr)
+                    s_ = T.table.get((t.key, frozenset())) if t is not None else None
+                    if s_ is not None and set(rel.rem_kinds) & set(s_.notifies):
+                        ok = True
+                if isinstance(c, ast.Call) and isinstance(c.func, ast.Attribute) and c.func.attr in ("_call_" + k for k in rel.rem_kinds):
+                    ok = True
+        if ok:
+            R.ok("E5b", "%s announces %s for each element of %s" % (f.qualname, "/".join(rel.rem_kinds), S), f.loc(wev.stmt))
+        else:
+            R.bad("E5b", "%s|bulk %s" % (f.key, rel.name), f.loc(wev.stmt),
+                  "%s drops the elements of `%s` from the %s list, but %s is not dispatched in a loop over `%s`: elements disappear with no "
+                  "announcement (or others are announced)" % (f.qualname, S, rel.name, "/".join(rel.rem_kinds), S))
+    R.count("bulk removals (E5b)", n)
+    R.floor("bulk removals (E5b)", 6)
+
+
 def _e_args(ctx, R):
     """every dispatch in spydrnet/ir passes `self` first and as many arguments as the listener hook takes"""
     R.rule("E3a", "each _call_<kind>(...) in spydrnet/ir passes the mutated object first and the hook's arity")
@@ -372,6 +401,7 @@ def check_c19(ctx, R):
     T = ctx.typestate
     _e1(ctx, R)
     _e_args(ctx, R)
+    _e5_bulk(ctx, R)
     R.rule("E2", "no announcement precedes one of the mutator's own assert/raise (no phantom announcement)")
     R.rule("E3", "every relation write is announced before it takes effect")
     R.rule("E5", "the element a relation write concerns is one of the objects named by the announcement dispatched before it in the same function")
